@@ -757,12 +757,23 @@ class VizierServicer(vizier_service_pb2_grpc.VizierServiceServicer):
         )
 
       # Send request to Pythia.
-      temp_pythia_service = self._select_pythia_service(
-          study_config.pythia_endpoint
-      )
-      early_stopping_decisions_proto = temp_pythia_service.EarlyStop(
-          early_stop_request_proto
-      )
+      try:
+        temp_pythia_service = self._select_pythia_service(
+            study_config.pythia_endpoint
+        )
+        early_stopping_decisions_proto = temp_pythia_service.EarlyStop(
+            early_stop_request_proto
+        )
+      except Exception:  # pylint: disable=broad-except
+        # Don't leave the operation ACTIVE forever (it would answer every
+        # later check without reaching Pythia): finish it, so that it gets
+        # recycled after the usual period, and report the failure.
+        output_operation.status = (
+            vizier_oss_pb2.EarlyStoppingOperation.Status.DONE
+        )
+        output_operation.completion_time.CopyFrom(_get_current_time())
+        self.datastore.update_early_stopping_operation(output_operation)
+        raise
       early_stopping_decisions = svz.EarlyStopConverter.from_decisions_proto(
           early_stopping_decisions_proto
       )
